@@ -679,7 +679,7 @@ def scenario(rng, profile):
             R.expect_sent = dict(uri="com.myapp.proc9", opts=ro)
 
             def f():
-                fut = s.register(R.endpoint, "com.myapp.proc9", options=RegisterOptions(details=True, **ro))
+                fut = s.register(R.endpoint, "com.myapp.proc9", options=RegisterOptions(details=True, **ro), check_types=(rng.random() < 0.3))
                 rid = R.last_req()
                 R.requests[rid] = dict(kind="register")
 
@@ -905,7 +905,7 @@ def scenario(rng, profile):
                     s.register(svc)
                 fut = cg.futs[0]
             else:
-                fut = s.register(R.endpoint, "com.myapp.proc9", options=RegisterOptions(details=True))
+                fut = s.register(R.endpoint, "com.myapp.proc9", options=RegisterOptions(details=True), check_types=(rng.random() < 0.3))
             rid = R.last_req()
             R.requests[rid] = dict(kind="register")
 
